@@ -37,7 +37,7 @@ fn any_millis(max_ms: u64) -> Duration {
 
 /// policy: 0 = None, 1 = Fixed, 2 = Custom (per-attempt symbolic delays)
 fn one_request(policy_kind: u8, with_pred: bool, retry_on_reconnect: bool) {
-    let max_attempts: Option<u32> = if kani::any() { None } else { let m: u32 = kani::any(); kani::assume(m <= 2); Some(m) };
+    let max_attempts: Option<u32> = if kani::any() { None } else { let m: u32 = kani::any(); kani::assume(m <= 1); Some(m) };
     gh().delays = [any_millis(10_000), any_millis(10_000), any_millis(10_000), any_millis(10_000)];
     let fixed = any_millis(10_000);
     let policy = match policy_kind {
@@ -67,6 +67,7 @@ fn one_request(policy_kind: u8, with_pred: bool, retry_on_reconnect: bool) {
     let shared = ReconnectState::new();
     let mut script = svc::any_script();
     script.never = false;
+    script.immediate = kani::any(); // all inner calls complete at once, or each at a poll of the solver's choice
     let mut s = ReconnectService::new(Inner::new(script), Arc::new(cfg), shared.clone());
     let req: u32 = kani::any();
     let _ = svc::poll_ready_once(&mut s);
@@ -75,14 +76,14 @@ fn one_request(policy_kind: u8, with_pred: bool, retry_on_reconnect: bool) {
     let mut sleep_started = model::now();
     let mut failing = false; // a reconnectable failure is being handled
     let mut step = 0;
-    while step < 6 {
+    while step < 4 {
         // another request on a clone of the layer may succeed at any moment
         let other_succeeded: bool = kani::any();
         if other_succeeded {
             shared.mark_connected();
         }
         model::advance(any_millis(15_000));
-        let (calls0, sleeps0, done0) = (mon().calls, st().sleeps_created, mon().completed);
+        let (calls0, sleeps0) = (mon().calls, st().sleeps_created);
         let p = svc::poll_once(fut.as_mut());
         if st().sleeps_created > sleeps0 {
             sleep_started = model::now();
@@ -102,7 +103,7 @@ fn one_request(policy_kind: u8, with_pred: bool, retry_on_reconnect: bool) {
         }
         if failing && !other_succeeded {
             // between a reconnectable failure and the next resolution the layer must not claim to be connected
-            assert!(shared.state() != ConnectionState::Connected || mon().completed > done0 && false || shared.state() != ConnectionState::Connected,
+            assert!(shared.state() != ConnectionState::Connected,
                 "[C16.not_connected_while_failing] the published state is not Connected while a reconnectable failure is being handled");
         }
         step += 1;
@@ -135,9 +136,7 @@ fn one_request(policy_kind: u8, with_pred: bool, retry_on_reconnect: bool) {
         match r {
             Ok(v) => {
                 assert!(last == Ok(*v), "[C16.returns_first_success] the first success is returned");
-                if !(kani::any::<bool>() && false) {
-                    assert!(shared.state() == ConnectionState::Connected, "[C16.connected_after_success] the published state is Connected after a success");
-                }
+                assert!(shared.state() == ConnectionState::Connected, "[C16.connected_after_success] the published state is Connected after a success");
             }
             Err(ReconnectError::ServiceError(e)) => {
                 assert!(last == Err(e.0) && with_pred && !reconnectable(e.0), "[C16.other_errors_pass] an error that is not a connection failure is returned at once, unchanged");
@@ -154,7 +153,7 @@ fn one_request(policy_kind: u8, with_pred: bool, retry_on_reconnect: bool) {
             }
         }
     }
-    kani::cover!(mon().calls == 3 && matches!(out, Some(Err(ReconnectError::MaxAttemptsExceeded { .. }))), "exhausted after three calls");
+    kani::cover!(mon().calls == 2 && matches!(out, Some(Err(ReconnectError::MaxAttemptsExceeded { .. }))), "exhausted after two calls");
     kani::cover!(mon().calls == 2 && matches!(out, Some(Ok(_))), "success on the retry");
     std::mem::forget(fut);
     std::mem::forget(s);
@@ -162,7 +161,7 @@ fn one_request(policy_kind: u8, with_pred: bool, retry_on_reconnect: bool) {
 
 macro_rules! proofs { ($($name:ident = ($k:expr, $p:expr, $r:expr)),*) => {$(
     #[kani::proof]
-    #[kani::unwind(8)]
+    #[kani::unwind(6)]
     #[kani::stub(std::time::Instant::now, tokio::model::std_instant_now)]
     fn $name() { one_request($k, $p, $r) }
 )*}}
